@@ -256,7 +256,7 @@ Lemma apply_span_value a fm sp nid texts a' nid' :
 Proof.
   intros Hf Hs Hr E. rewrite apply_spans_one in E. unfold span_lo, span_hi in Hr.
   unfold do_apply in E. rewrite Hf, Hr, Hs in E. cbn [orb bind] in E.
-  destruct (fresh texts nid) as [news n2] eqn:Efr. inversion E; subst. split; [now rewrite Efr|].
+  destruct (fresh texts nid) as [news n2] eqn:Efr. inversion E; subst. split; [reflexivity|].
   pose proof (fresh_snd texts nid) as Q. now rewrite Efr in Q.
 Qed.
 
@@ -336,6 +336,29 @@ Proof.
   destruct H as [->| ->]; [reflexivity|]. now rewrite orb_true_r.
 Qed.
 
+(* how many identities the loop allocates: one batch per non-empty match *)
+Definition nonempty_count (len : nat) (spans : list (Z * Z)) : nat :=
+  length (filter (fun sp => negb (range_empty len (span_lo len sp) (span_hi len sp))) spans).
+
+Lemma apply_spans_nid fm texts : form_falsy fm = false -> scrub fm = OK texts ->
+  forall spans a nid a' nid', apply_spans a fm spans nid = OK (a', nid') ->
+  nid' = nid + length texts * nonempty_count (length (base a)) spans.
+Proof.
+  intros Hf Hs. induction spans as [|sp spans IH]; intros a nid a' nid' E.
+  - inversion E; subst. unfold nonempty_count. cbn [filter length]. lia.
+  - rewrite apply_spans_cons in E.
+    destruct (do_apply a fm (Some (fst sp)) (Some (snd sp)) true nid) as [[a1 n1]|e] eqn:E1; cbn [bind] in E; [|discriminate].
+    pose proof (do_apply_base _ _ _ _ _ _ _ _ E1) as B1.
+    apply IH in E. rewrite B1 in E. subst nid'.
+    unfold nonempty_count. cbn [filter]. fold (nonempty_count (length (base a)) spans).
+    unfold do_apply in E1. rewrite Hf, Hs in E1. cbn [orb bind] in E1.
+    fold (span_lo (length (base a)) sp) (span_hi (length (base a)) sp) in E1.
+    destruct (range_empty _ _ _); cbn [negb length].
+    + inversion E1; subst. unfold nonempty_count. lia.
+    + destruct (fresh texts nid) as [news n2] eqn:Efr. inversion E1; subst.
+      pose proof (fresh_snd texts nid) as Q. rewrite Efr in Q. cbn [snd] in Q. unfold nonempty_count. lia.
+Qed.
+
 (* ====================================================================== *)
 (* 6. Theorem 4: pairwise disjoint matches                                 *)
 (* ====================================================================== *)
@@ -384,7 +407,7 @@ Proof.
   pose proof (apply_spans_alloc _ _ _ _ _ _ _ G E1) as A1.
   pose proof (apply_spans_base _ _ _ _ _ _ E1) as B1.
   pose proof (apply_spans_base _ _ _ _ _ _ E2) as B2.
-  split; [reflexivity|]. split; [reflexivity|]. split; [exact A1|]. split; [exact B1|].
+  split; [reflexivity|]. split; [exact E2|]. split; [exact A1|]. split; [exact B1|].
   split; [eapply apply_spans_outside; eauto|].
   destruct A1 as (f1 & X1 & L1 & G1).
   destruct (apply_spans_alloc _ _ _ _ _ _ _ G1 E2) as (f2 & X2 & L2 & G2).
@@ -409,7 +432,7 @@ Proof.
   pose proof (remove_spans_good _ _ _ _ _ _ G1 E2) as G2.
   pose proof (remove_spans_base _ _ _ _ E1) as B1.
   pose proof (remove_spans_base _ _ _ _ E2) as B2.
-  split; [reflexivity|]. split; [reflexivity|]. split; [exact G1|]. split; [exact B1|].
+  split; [reflexivity|]. split; [exact E2|]. split; [exact G1|]. split; [exact B1|].
   split; [eapply remove_spans_outside; eauto|].
   eapply remove_spans_outside; eauto. now rewrite B2, B1.
 Qed.
@@ -422,9 +445,9 @@ Theorem format_matching_inside f nid a fm texts pre sp post a' nid' :
   ordered (length (base a)) (pre ++ sp :: post) ->
   range_empty (length (base a)) (span_lo (length (base a)) sp) (span_hi (length (base a)) sp) = false ->
   apply_spans a fm (pre ++ sp :: post) nid = OK (a', nid') ->
-  exists n1, nid <= n1 /\ n1 + length texts <= nid' /\
+  let n1 := nid + length texts * nonempty_count (length (base a)) pre in
   let new := fst (fresh texts n1) in
-  map stxt new = texts /\
+  n1 + length texts <= nid' /\ map stxt new = texts /\
   forall k, inside (length (base a)) sp k ->
   exists l1 l2,
     active_at (tbl a) k = l1 ++ l2
@@ -445,10 +468,9 @@ Proof.
   destruct (apply_span_inside _ _ _ _ _ _ _ _ G1 Hf Hs Hne Hr E2) as (T1 & T2 & T3).
   destruct (apply_spans_alloc _ _ _ _ _ _ _ G1 E2) as (f2 & X2 & L2 & G2).
   destruct (apply_spans_alloc _ _ _ _ _ _ _ G2 E0) as (f3 & X3 & L3 & G3).
-  exists n1. split; [exact L1|]. split; [lia|]. cbv zeta. split; [exact T1|].
+  rewrite <- (apply_spans_nid _ _ Hf Hs _ _ _ _ _ E1). cbv zeta. split; [lia|]. split; [exact T1|].
   intros k Hk.
   destruct (ordered_outside _ _ _ _ _ Hord Hk) as [Hpre Hpost].
-  assert (Hlo : In sp [sp] -> True) by auto.
   assert (Hlo_out : outside (length (base a)) pre (span_lo (length (base a)) sp)).
   { apply (ordered_outside _ _ _ _ _ Hord). unfold inside.
     unfold range_empty in Hr. apply orb_false_iff in Hr as [_ Hr]. apply Nat.leb_gt in Hr. rewrite B1 in Hr. lia. }
@@ -526,6 +548,19 @@ Example ex_apply_spans_only :=
   apply_spans_only ex_f 2 ex_v fm_ul [(0, 1)%Z] (2, 3)%Z [] _ 4 2 ex_v_good eq_refl
     ltac:(intros sp [<-|[]]; vm_compute; lia) (outside_nil 4 2).
 
+Example ex_apply_spans_outside := apply_spans_outside fm_ul spans2 ex_f ex_v 2 _ 4 ex_v_good eq_refl 1 (proj1 ex_outside).
+Example ex_apply_spans_alloc := apply_spans_alloc fm_ul spans2 ex_f ex_v 2 _ 4 ex_v_good eq_refl.
+Example ex_apply_spans_nid := apply_spans_nid fm_ul [[52%N]] eq_refl eq_refl spans2 ex_v 2 _ 4 eq_refl.
+Example ex_nonempty_count : nonempty_count 4 [(0, 1); (1, 1); (2, 3); (4, 4)]%Z = 2.
+Proof. reflexivity. Qed.
+Example ex_do_apply_outside :=
+  do_apply_outside ex_f 2 ex_v fm_ul (Some 1%Z) (Some 3%Z) true _ 3 ex_v_good eq_refl 0 ltac:(vm_compute; lia).
+Example ex_do_remove_outside :=
+  do_remove_outside ex_v (Some (FList [FInt 1])) (Some 1%Z) (Some 3%Z) _ ex_v_WFv eq_refl 3 ltac:(vm_compute; lia).
+Example ex_ordered_outside := ordered_outside 4 [(0, 1)%Z] (2, 3)%Z [] 2 ex_ordered ltac:(vm_compute; lia).
+Example ex_apply_span_noop := apply_span_noop ex_v fm_ul (2, 2)%Z 2 (or_intror eq_refl).
+Example ex_remove_span_noop := remove_span_noop ex_v None (3, 1)%Z (or_intror eq_refl).
+
 (* unformat_matching(..., "bold") on the same matches *)
 Definition fm_bold : option form := Some (FList [FInt 1]).
 Example ex_sel : sel_of fm_bold (Some [[49%N]]).
@@ -567,7 +602,7 @@ Qed.
    overlap both applications are seen *)
 Example ex_overlap :
   exists a', apply_spans ex_v fm_ul [(0, 2); (1, 3)]%Z 2 = OK (a', 4)
-  /\ map (active_at (tbl a')) [0; 1; 2; 3] = [[b1; u2]; [b1; u2; u3; r1]; [b1; r1; u3]; [b1]].
+  /\ map (active_at (tbl a')) [0; 1; 2; 3] = [[b1; u2]; [b1; u2; r1; u3]; [b1; r1; u3]; [b1]].
 Proof. eexists. split; vm_compute; reflexivity. Qed.
 End MatchExamples.
 
@@ -581,6 +616,7 @@ Print Assumptions unformat_matching_outside.
 Print Assumptions apply_span_inside.
 Print Assumptions apply_span_inside_first.
 Print Assumptions remove_span_inside.
+Print Assumptions apply_spans_nid.
 Print Assumptions apply_spans_only.
 Print Assumptions remove_spans_only.
 Print Assumptions format_matching_inside.
